@@ -726,3 +726,21 @@ Proof.
   destruct (cc_merge_from_spec k dcr scr sbody sitems w Dw Sw) as (n & s' & w' & E & _ & _ & _ & _ & _ & _ & _ & _ & _ & M).
   exists n, s', w'. split; [exact E|]. apply M. exact Hne.
 Qed.
+
+(* Array(const Array&, MemManager): equal contents, requested manager, and the copy's storage (if any) is a block
+   that did not exist before: it cannot be the source's block *)
+Theorem arr_copy_independent ic src m w :
+  (match ablock src with Some b => fst b < next w | None => True end) ->
+  exists c w', arr_copy_ctor_mm ic src m w = (c, w') /\ aitems c = aitems src /\ amgr c = m /\ arr_wf c /\
+    (forall b b0, ablock c = Some b -> ablock src = Some b0 -> fst b <> fst b0) /\
+    (forall P, (forall x y, P (EAlloc x y) = true) -> (forall v, P (ECopy v) = true) -> extends P w w').
+Proof.
+  intros Hb. unfold arr_copy_ctor_mm. destruct (Nat.leb (length (aitems src)) ic).
+  - do 2 eexists. split; [reflexivity|]. simpl. repeat split; auto; try discriminate.
+    intros P PA PC. apply extends_emit. apply forallb_map_const. assumption.
+  - do 2 eexists. split; [reflexivity|]. simpl. repeat split; auto.
+    + intros b b0 E1 E2. inversion E1; subst. rewrite E2 in Hb. simpl. lia.
+    + intros P PA PC. apply extends_trans with (w2 := snd (alloc m w)).
+      * eexists [_]. split; [reflexivity|]. simpl. rewrite PA. reflexivity.
+      * apply extends_emit. apply forallb_map_const. assumption.
+Qed.
